@@ -2264,6 +2264,7 @@ class QuicConnection:
             )
 
         # process data
+        was_finished = stream.receiver.is_finished
         try:
             event = stream.receiver.handle_frame(frame)
         except FinalSizeError as exc:
@@ -2272,7 +2273,9 @@ class QuicConnection:
                 frame_type=frame_type,
                 reason_phrase=str(exc),
             )
-        if event is not None:
+        # a retransmitted or duplicated frame must not signal the end of the
+        # stream a second time
+        if event is not None and (event.data or not was_finished):
             self._events.append(event)
         self._local_max_data.used += newly_received
 
